@@ -169,10 +169,16 @@ Coarse on purpose — a vocabulary, not a layout: within the functions reachable
   `close`, and a `sync.WaitGroup` (no mutex, no semaphore channel, no `select`, no atomics, no `sync.Map` …);
 * of the watched method names only `Add`, `Done`, `Wait` are called;
 * exactly one function receives from a `chan string` (one collector), and something sends on one.
+* order (each about the statements of ONE statement list): every `go` that starts a worker (a body that calls `Done`) is
+  immediately preceded by `….Add(…)` (Step.launch / Step.spawn increment `wg` in the same step that adds the process);
+  the first statement of a worker body is `defer ….Done()` (Step.done is the last step of every process, also after a send);
+  every `close` of a `chan string` comes after a waiting statement (Step.close requires `wg = 0`); the `go` that starts the
+  collector comes before the waiting statement (Step.send needs the collector; otherwise `wg.Wait()` would never return).
 How many goroutines there are, whether the construct channel is buffered, whether the collector ranges over the channel —
-the Step system fixes one such layout (the one transcribed from clone.go 264-343), the pin does not. -/
-def expectedCloneFacts : List String × List String × Nat × Bool :=
-  (["chan:[]Part", "chan:string", "close", "go", "sync.WaitGroup"], ["Add", "Done", "Wait"], 1, true)
+the Step system fixes one such layout (the one transcribed from clone.go 264-343), the pin does not: a buffered construct
+channel in particular is indistinguishable, at this level, from the harmless rewrite seeded-harmless/C09-h3. -/
+def expectedCloneFacts : List String × List String × Nat × Bool × Bool × Bool × Bool × Bool :=
+  (["chan:[]Part", "chan:string", "close", "go", "sync.WaitGroup"], ["Add", "Done", "Wait"], 1, true, true, true, true, true)
 
 structure Sys where
   seeds : List Work            -- main's launch loop: goroutines still to be started
